@@ -95,7 +95,7 @@ class Options:
 
 
 def abstract_request(v, optional=(), always=(), repeatable=(), sym_path=False, sym_query=False, sym_method=False, root=False, remote='optional',
-                     ports=(80,), schemes=('http',), omit_scheme=False, qs_flags=False, strip=False):
+                     ports=(80,), schemes=('http',), omit_scheme=False, qs_flags=False, strip=False, fixed=None):
     a = Abstract()
     a.method = v.str('method') if sym_method else 'GET'
     if sym_path:
@@ -120,7 +120,7 @@ def abstract_request(v, optional=(), always=(), repeatable=(), sym_path=False, s
     if a.remote is not None:
         v.assume(Len(a.remote) > 0)  # a server-supplied peer address is never the empty string (ASSUMPTIONS)
     a.root_path = v.str('root_path') if root and v.choose(2, 'has-root-path') else None
-    a.headers = []
+    a.headers = [(n, val) for n, val in (fixed or {}).items()]
     for n in list(always) + [n for n in optional if v.choose(2, 'has-' + n)]:
         a.headers.append((n, header_bytes(v, n)))
     for n in repeatable:
@@ -383,10 +383,7 @@ def _construction(v, strip):
     with World(v, a) as w:
         if not constructed(v, w):
             return
-        for name in ('method', 'path', 'query_string', 'content_type', 'root_path', 'app', 'uri_template'):
-            both(v, w, name)
         # params: both constructors hand the same query string and the same option flags to the same parse_query_string
-        both(v, w, 'params')
         p = w.parsers['parse_query_string']
         nonempty = a.query is not None and bool(Len(a.query) > 0)
         want = [((a.query,), {'keep_blank': a.options.keep_blank_qs_values, 'csv': a.options.auto_parse_qs_csv})] if nonempty else []
@@ -395,6 +392,8 @@ def _construction(v, strip):
             ok = len(got) == len(want) and all(len(g[0]) == 1 and g[1] == wnt[1] for g, wnt in zip(got, want))
             check_at(v, tgt + '.__init__', 'query-string-parsed-once-by-parse_query_string-with-the-request-options',
                      And(ok, *[g[0][0] == wnt[0][0] for g, wnt in zip(got, want)]) if ok else False)
+        for name in ('params', 'method', 'path', 'query_string', 'content_type', 'root_path', 'app', 'uri_template'):
+            both(v, w, name)
         v.cover('constructed')
 
 
@@ -538,6 +537,18 @@ def _forwarding(v, group):
         for name in ('forwarded', 'forwarded_scheme', 'forwarded_host'):
             both(v, w, name)
         v.cover('read')
+
+
+@harness(PROP, AREQ + '.forwarded_scheme', name='eq_forwarded_scheme_case', setup=_setup, inline=INLINE)
+def eq_forwarded_scheme_case(v):
+    """A concrete mixed-case X-Forwarded-Proto (lower-casing is an uninterpreted function elsewhere): replayable instance."""
+    a = abstract_request(v, fixed={'x-forwarded-proto': b'HTTPS', 'x-forwarded-host': b'Example.COM'}, remote=False)
+    with World(v, a) as w:
+        if not constructed(v, w):
+            return
+        both(v, w, 'forwarded_scheme')
+        both(v, w, 'forwarded_host')
+        both(v, w, 'forwarded_uri')
 
 
 for _g, _nm in enumerate(['forwarded', 'x-forwarded', 'both', 'none']):
@@ -711,8 +722,7 @@ KILLS = [
     ('falcon/request.py', "            value = '127.0.0.1'\n", "            value = 'localhost'\n", 'falcon.asgi.request:Request.remote_addr#wsgi-and-asgi-agree'),
     ('falcon/asgi/request.py', "            return self._asgi_headers[b'accept'].decode('latin1') or '*/*'\n", "            return self._asgi_headers[b'accept'].decode('latin1') or '*'\n",
      'falcon.asgi.request:Request.accept#wsgi-and-asgi-agree'),
-    ('falcon/asgi/request.py', "                addresses = headers[b'x-forwarded-for'].decode('latin1').split(',')\n", "                addresses = headers[b'x-forwarded-for'].decode('latin1').split(';')\n",
-     'falcon.asgi.request:Request.access_route#wsgi-and-asgi-agree'),
+    ('falcon/asgi/request.py', "            elif b'x-real-ip' in headers:\n", "            elif b'x-client-ip' in headers:\n", 'falcon.asgi.request:Request.access_route#wsgi-and-asgi-agree'),
     # the twin reads another header
     ('falcon/asgi/request.py', "            header_value = self._asgi_headers.get(b'if-match')\n", "            header_value = self._asgi_headers.get(b'if-none-match')\n", 'falcon.asgi.request:Request.if_match#'),
     ('falcon/request.py', "            self.content_type = self.env['CONTENT_TYPE']\n", "            self.content_type = self.env['HTTP_CONTENT_TYPE']\n", 'falcon.request:Request.content_type#wsgi-and-asgi-agree'),
